@@ -161,7 +161,7 @@ def concrete_steps_to_trace(steps):
             return out, abort
         post = decode_state(st["rawT"], st["rawL"])
         op = st["op"]
-        if op == "Init" or (isinstance(op, dict) and op["op"] in ("Clear", "Recreate")):
+        if op == "Init" or (isinstance(op, dict) and op["op"] in ("Clear", "Recreate", "ClearKeep")):
             diff, lid = store_diff(EMPTY, post)
             reset = True
         else:
